@@ -50,6 +50,21 @@ def run(chk, repo, tier):
     chk.explanation = ("ecdsa_raw_recover is evaluated with symbolic (v, r, s) and hash; the accepted v-set, the three "
                        "rejection gates and their dominance over every point/inverse use are read off the path facts; the "
                        "parity selection is tabulated over v x parity(beta); the result is evaluated in the formal group over F_N.")
+    # restate C18
+    from . import C18 as _dep_C18
+    from ..report import SubCheck as _SubCheck
+    chk.rule("C19.R4", "the Jacobian routines recovery is built on are the group law for all integers and representatives (C18.R1/R2 re-stated)", 20)
+    _sub = _SubCheck()
+    _err = None
+    try:
+        _dep_C18.run(_sub, repo, tier)
+    except AnalysisError as _e:
+        _err = _e
+    for _rule, _construct, _key, _ok, _detail, _where in _sub.obs:
+        if True and (_rule in ("C18.R1", "C18.R2")):
+            chk.ob("C19.R4", _construct, f"[{_rule}] {_key}", _ok, _detail, _where)
+    if _err is not None and all(o[3] for o in _sub.obs):
+        raise _err
     chk.rule("C19.R1", "accepted v-set is exactly {27, 28}; residue, r≢0, s≢0 gates dominate every use of (x,y) as a point and "
                        "of inv(r, N); each rejection raises ValueError", 3)
     chk.rule("C19.R2", "parity table: v = 27 ⇒ y even, v = 28 ⇒ y odd, y ∈ {β, P−β}, β = (x³+Ax+B)^((P+1)/4)", 4)
